@@ -12,9 +12,9 @@ def x_obligations(tier):
     o += per_part("C02", "C02-fields-rot", M, "via_fields", tier, extra_env={"VF_ROT": "2"}, only=None if tier == "thorough" else ["h/a/x/", "h/s/q1/v1/"])
     o += per_part("C02", "C02-query", M, "query", tier, shrink=0)
     n = 3 if tier == "quick" else 4
-    o.append(Obl(f"C02-eq[len<={n}]x2", M, "eq", env={"VF_N": str(n)}, timeout=170 if tier == "quick" else 1200, family="C02-eq", bound=f"every pair of str a, b with len <= {n}"))
+    o.append(Obl(f"C02-eq[len<={n}]x2", M, "eq", env={"VF_N": str(n)}, timeout=170 if tier == "quick" else 600, family="C02-eq", bound=f"every pair of str a, b with len <= {n}"))
     for pre in ["h/a/", "h/s/q1/v1/"]:
-        o.append(Obl(f"C02-evalrepr[{pre!r}]", M, "eval_repr", env={"VF_PRE": pre}, timeout=170 if tier == "quick" else 1200, family="C02-evalrepr",
+        o.append(Obl(f"C02-evalrepr[{pre!r}]", M, "eval_repr", env={"VF_PRE": pre}, timeout=170 if tier == "quick" else 600, family="C02-evalrepr",
                      bound="free value = 1..2 letters of a 12-letter quote/escape/control alphabet (solver-enumerated)"))
     o.append(Obl("C02-reach", M, "reach_forms", env={"VF_N": "6"}, timeout=150, expect="refute", family="C02-twin"))
     return o
